@@ -160,6 +160,38 @@ func bulkMain(args []string) {
 		}
 		enc.Encode(bev{Ev: "Final", Len: &ln, Pairs: pairs})
 		events++
+		// Clear of a large map while the others keep writing (Set, SetNx, Map): which writes survive depends on the
+		// interleaving, so nothing is logged here - a crash or a race report is the verdict
+		var wg2 sync.WaitGroup
+		var stop int32
+		for id := 1; id < w; id++ {
+			wg2.Add(1)
+			go func(id int) {
+				defer wg2.Done()
+				for k := 0; atomic.LoadInt32(&stop) == 0 || k < 400; k++ {
+					key := 1 + id + (k%300)*w
+					switch k % 5 {
+					case 0:
+						kv.SetNx(key, k)
+					case 1:
+						kv.Map(func(m mapz.KV[int, int]) { m[key] = k })
+					default:
+						kv.Set(key, k)
+					}
+					if k > 200000 {
+						break
+					}
+				}
+			}(id)
+		}
+		for c := 0; c < 6; c++ {
+			for k := 0; k < 200; k++ {
+				kv.Set(1+k*w, k)
+			}
+			kv.Clear()
+		}
+		atomic.StoreInt32(&stop, 1)
+		wg2.Wait()
 	}
 	st, _ := json.Marshal(map[string]int{"scenarios": *rounds, "events": events})
 	os.WriteFile(*out+"/bulk_stats.json", st, 0o644)
